@@ -227,6 +227,58 @@ def rule_utils(ck):
     return f
 
 
+def rule_row_acceptance(ck, rid="C06.R5"):
+    """a constraint row is passed over (the iteration completes, the function can still answer True) only on the passing edge of the
+    comparison that belongs to the mode of the call: phase-aware -> the phasor magnitude (cos, sin, norm), linear -> |coefficients| x
+    schedule.  A cheaper screen that lets a row through in the other mode's terms makes the checkers disagree (signed or negative
+    entries).  Decided on the decision table of the function (every syntactic path, loop body entered once)."""
+    from .. import pathtab
+    repo = ck.repo
+    f = repo.fn("infrastructure_constraints_feasible")
+    fl = flow_of(f)
+    lin_p = f.params[2]
+    rows = [r for r in pathtab.table(fl) if r.end == "return" and isinstance(r.value, ast.Constant) and r.value.value is True
+            and any(k.startswith("iterates ") and "constraint_matrix" in k and t for k, t, _, _ in r.facts)]
+    if not rows:
+        ck.error(rid, "infrastructure_constraints_feasible: no accepting path through the per-constraint loop found (idiom not recognised)")
+        return
+
+    def kind(atom):
+        """'phasor' / 'linear' / 'other' for an all(<x> <= <bound>) atom"""
+        if not (isinstance(atom, ast.Call) and call_name(atom) == "all" and atom.args):
+            return None
+        c = cmp_norm(atom.args[0])
+        if not c or c[1] not in ("<=", "<"):
+            return "other"
+        x = c[0]
+        names = {call_name(q) for q in ast.walk(x) if isinstance(q, ast.Call)}
+        if {"cos", "sin"} <= names and ("norm" in names or "hypot" in names or "sqrt" in names):
+            return "phasor"
+        if "abs" in names and not ({"cos", "sin", "exp"} & names):
+            inner_abs = any(isinstance(q, ast.Call) and call_name(q) == "abs" and q.args and any(isinstance(z, (ast.Name, ast.Call)) and
+                            canon(z) in (f"__elem__({f.params[1]}.constraint_matrix)", f"__item__(__elem__(enumerate({f.params[1]}.constraint_matrix)), 1)")
+                            for z in ast.walk(q.args[0])) and not any(isinstance(z, ast.BinOp) and isinstance(z.op, ast.MatMult) for z in ast.walk(q.args[0]))
+                            for q in ast.walk(x))
+            return "linear" if inner_abs else "other"
+        return "other"
+    n_checked = 0
+    for r in rows:
+        mode = r.fact(lambda k, a: k == lin_p)
+        if mode is None:
+            continue
+        want = "linear" if mode else "phasor"
+        passed = [kind(a) for k, t, a, n in r.facts if t and kind(a) is not None]
+        n_checked += 1
+        if want not in passed:
+            ck.violation(rid, f, r.describe(220), f"in {'linear' if mode else 'phase-aware'} mode a constraint row is accepted on this path without passing the "
+                         f"{want} comparison (comparisons passed: {passed or 'none'}): the algorithm-side check can accept what the network-side check rejects",
+                         sink=f"utils:row-accepted-without-{want}")
+    if n_checked == 0:
+        ck.error(rid, "infrastructure_constraints_feasible: the accepting paths do not branch on the `linear` flag (mode idiom not recognised)")
+    elif not any(o["rule"] == rid and o["verdict"] == "violation" and "row-accepted" in o.get("key", "") for o in ck.obligations):
+        ck.holds(rid, f, "row acceptance", f"on all {n_checked} accepting path(s) the row passed its mode's own comparison")
+
+
 def rule_network(ck):
     repo = ck.repo
     g = repo.fn("ChargingNetwork.is_feasible")
@@ -458,6 +510,7 @@ def rule_none_matrix(ck):
 
 def run(ck):
     rule_utils(ck)
+    rule_row_acceptance(ck)
     g, h = rule_network(ck)
     rule_interface(ck, g)
     rule_defaults(ck)
